@@ -66,6 +66,20 @@ impl PruningStatistics for OneContainer {
     }
 }
 
+/// the predicate contains a unary minus applied (directly) to a column
+fn negates_column(e: &Arc<dyn PhysicalExpr>) -> bool {
+    let mut found = false;
+    let _ = e.apply(|n| {
+        if let Some(neg) = n.downcast_ref::<datafusion::physical_expr::expressions::NegativeExpr>() {
+            if neg.arg().downcast_ref::<datafusion::physical_expr::expressions::Column>().is_some() {
+                found = true;
+            }
+        }
+        Ok(TreeNodeRecursion::Continue)
+    });
+    found
+}
+
 fn stat_columns(e: &Arc<dyn PhysicalExpr>) -> Vec<(String, usize)> {
     let mut out: Vec<(String, usize)> = vec![];
     let _ = e.apply(|n| {
@@ -380,7 +394,12 @@ fn run_one(duo: &mut Duo, x: &X, table: &[(String, Ty, bool)], simplify_first: b
                     };
                     let info = json!({"original": phys.to_string(), "rewritten": pexpr.to_string(), "row": row_json(&row),
                         "original_value": format!("predicate on the witness row: {}", matches), "rewritten_value": format!("prune() skips the container: {}", pruned),
-                        "signature": format!("prune: {} => {}", crate::c04::shape(&phys.to_string()), crate::c04::shape(&pexpr.to_string()))});
+                        "signature": if negates_column(&phys) && wit.iter().any(|r| r.3.map(|v| v == r.1.min_max().0).unwrap_or(false)) {
+                            // recorded finding, keyed by its trigger: unary minus on a column and a witness value at the type minimum
+                            "prune: predicate negates a column; witness value is the type minimum (wrapping negation)".to_string()
+                        } else {
+                            format!("prune: {} => {}", crate::c04::shape(&phys.to_string()), crate::c04::shape(&pexpr.to_string()))
+                        }});
                     if pruned && matches {
                         t.violations.push(info);
                     } else {
@@ -411,6 +430,12 @@ fn programs(thorough: bool, seed: u64) -> Vec<(X, Vec<(String, Ty, bool)>, bool)
                     let wide = Ty::Int { bits: 64, signed: true };
                     atoms.push(bin(op, X::Cast { e: Box::new(a.clone()), to: wide.clone(), try_: false }, lit(&wide, v)));
                     atoms.push(bin(op, X::Cast { e: Box::new(a.clone()), to: wide.clone(), try_: true }, lit(&wide, v + 300)));
+                    if ty.signed() {
+                        // the child of the cast reverses the comparison: the operator fixed up by the child must survive the cast branch
+                        let na = X::Neg(Box::new(a.clone()));
+                        atoms.push(bin(op, X::Cast { e: Box::new(na.clone()), to: wide.clone(), try_: false }, lit(&wide, v)));
+                        atoms.push(bin(op, X::Cast { e: Box::new(na), to: wide.clone(), try_: true }, lit(&wide, v)));
+                    }
                 }
             }
         }
